@@ -13,6 +13,7 @@ from __future__ import annotations
 
 import contextlib
 import csv as _csv
+import math
 import os
 import shutil
 import tempfile
@@ -31,12 +32,37 @@ FMTS = {
     "custom": ("m{epoch}.pt", "o-{epoch:05d}.pt", True),
     "subdir": ("ck/m_{epoch:02d}.pt", "ck/o_{epoch:02d}.pt", True),
     "noepoch": ("model.pt", "optim.pt", False),
+    # other entries of the history in the names ("Entries from the state csv are used to format this string"),
+    # model and optimizer in different directories
+    "info": ("m_{epoch:03d}_lr{lr}.pt", "opt/o_{epoch:03d}_cd{es_patience_cd}_{rlr_patience_cd}.pt", True),
+    # the same with format specifications (see ENABLE_INFO_SPEC_FMT in vf/props/c16.py)
+    "info_spec": ("m_{epoch}_{lr:.3e}.pt", "o_{epoch}_{lr:.1e}_{val_met:.2e}.pt", True),
 }
+INFO_FMTS = ("info", "info_spec")
 
 
 def representable5(x) -> bool:
     """True iff x survives the history file's 5 significant digits."""
     return float("%.4e" % x) == x
+
+
+def num(x):
+    """Metrics in a case are plain numbers or the strings "inf" / "-inf" / "nan" (JSON has no non-finite floats)."""
+    return float(x) if isinstance(x, str) else x
+
+
+def same_num(a, b) -> bool:
+    a, b = num(a), num(b)
+    if isinstance(a, float) and isinstance(b, float) and math.isnan(a) and math.isnan(b):
+        return True
+    return a == b
+
+
+def canon_info(info) -> dict:
+    """A history entry with NaN replaced by a token, so that entries compare with ``==`` (None = no such entry)."""
+    if info is None:
+        return None
+    return {k: ("nan" if isinstance(v, float) and math.isnan(v) else v) for k, v in info.items()}
 
 
 def lr0_of(cfg) -> float:
@@ -168,27 +194,58 @@ def best_epoch(vals):
 # ------------------------------------------------------------------ model and optimizer
 
 
+MODEL_KINDS = ("plain", "strided", "f64buf")
+
+
 class Tiny(torch.nn.Module):
     """``tag`` is set to the epoch number before each update; ``w`` is trained by SGD with
-    momentum, so it depends on every learning rate and on the restored optimizer state."""
+    momentum, so it depends on every learning rate and on the restored optimizer state.
 
-    def __init__(self):
+    Memory layouts / dtypes of the state (``kind``):
+
+    * ``plain``: two float32 parameters owning their storage;
+    * ``strided``: ``w`` is column 1 of a 2x3 tensor (stride 3, storage offset 1, non-contiguous) and ``tag`` is
+      element 2 of a 4-vector (storage offset 2) - what a module holding views of one flat buffer has;
+    * ``f64buf``: ``w`` is float64 and the module has two buffers that are state but not parameters: ``c`` (float64,
+      1/3 - not representable in float32) and ``nsteps`` (int64, counts the training steps).
+    """
+
+    def __init__(self, kind="plain"):
         super().__init__()
-        self.tag = torch.nn.Parameter(torch.zeros(1))
-        self.w = torch.nn.Parameter(torch.zeros(2))
+        self.kind = kind
+        if kind == "strided":
+            self._w_base = torch.full((2, 3), -99.0)
+            self._t_base = torch.full((4,), -98.0)
+            self.w = torch.nn.Parameter(self._w_base[:, 1])
+            self.tag = torch.nn.Parameter(self._t_base[2:3])
+        elif kind == "f64buf":
+            self.tag = torch.nn.Parameter(torch.zeros(1))
+            self.w = torch.nn.Parameter(torch.zeros(2, dtype=torch.float64))
+            self.register_buffer("c", torch.tensor([1.0 / 3.0], dtype=torch.float64))
+            self.register_buffer("nsteps", torch.zeros((), dtype=torch.int64))
+        else:
+            self.tag = torch.nn.Parameter(torch.zeros(1))
+            self.w = torch.nn.Parameter(torch.zeros(2))
+        self.reset_parameters()
 
     def reset_parameters(self):
         with torch.no_grad():
             self.tag.zero_()
             self.w.zero_()
+            if self.kind == "f64buf":
+                self.c.fill_(1.0 / 3.0)
+                self.nsteps.zero_()
 
 
 def new_model_opt(cfg, scramble=0):
-    m = Tiny()
+    m = Tiny(cfg.get("model", "plain"))
     if scramble:
         with torch.no_grad():
             m.tag.fill_(-7.0 - scramble)
             m.w.fill_(123.0 + scramble)
+            if m.kind == "f64buf":
+                m.c.fill_(9.0 + scramble)
+                m.nsteps.fill_(-5 - scramble)
     lr0 = lr0_of(cfg)
     # with lr_mode == "param" the controller must overwrite this rate at epoch 0
     base = lr0 if cfg["lr_mode"] == "opt" else 0.375
@@ -200,24 +257,49 @@ def new_model_opt(cfg, scramble=0):
     return m, o
 
 
+def _g(x) -> float:
+    """Gradient component derived from a metric: the metric itself on the small grid, else its binary mantissa
+    (huge / tiny / non-finite metrics must not make the parameters overflow or become NaN)."""
+    x = num(x)
+    if not math.isfinite(x):
+        return 0.25
+    if abs(x) <= 16.0 and (x == 0.0 or abs(x) >= 2.0 ** -10):
+        return float(x)
+    return math.frexp(x)[0]
+
+
 def train_step(m, o, epoch, train, val, salt=0):
     """``salt`` makes a repeated attempt at an epoch (after a crash) produce different parameters,
-    as real training does; the metrics (hence the history) stay those of the case."""
+    as real training does; the metrics (hence the history) stay those of the case. The salt enters ``tag``, ``w``
+    and the momentum buffer (in a very long history ``w`` can grow until a small salted step is rounded away)."""
     with torch.no_grad():
-        m.tag.fill_(float(epoch))
+        m.tag.fill_(float(epoch) + 0.125 * salt)
+        if m.kind == "f64buf":
+            m.nsteps += 1
     m.tag.grad = None
-    m.w.grad = torch.tensor([val + 1.0 + 0.125 * salt, float(epoch) - train])
+    # from epoch 64 on the gradient alternates in sign, so that very long histories keep ``w`` bounded
+    sign = -1.0 if (epoch >= 64 and epoch % 2) else 1.0
+    m.w.grad = torch.tensor([sign * (_g(val) + 1.0 + 0.125 * salt), sign * (float(epoch % 64 if epoch >= 64 else epoch) - _g(train))],
+                            dtype=m.w.dtype)
     o.step()
 
 
 def snapshot(m, o):
     buf = o.state.get(m.w, {}).get("momentum_buffer")
-    return {
+    out = {
         "tag": m.tag.item(),
         "w": m.w.detach().tolist(),
         "buf": None if buf is None else buf.tolist(),
         "lrs": [g["lr"] for g in o.param_groups],
     }
+    if m.kind == "f64buf":
+        out["extra"] = [m.c.item(), int(m.nsteps.item())]
+    return out
+
+
+def model_part(snap) -> dict:
+    """The part of a snapshot that ``load_model_for_epoch`` (model only) restores."""
+    return {k: snap[k] for k in ("tag", "w", "extra") if k in snap}
 
 
 _PARAMS_CACHE = {}
@@ -297,10 +379,14 @@ class Session:
         self.ctl = make_controller(self.cfg, self.csv, self.sdir, self.entries)
         return self.ctl
 
-    def epoch(self, train, val, /, **user):
+    def epoch(self, train, val, /, explicit_epoch=False, **user):
+        """One epoch of training and the controller's update. ``train`` / ``val`` as stored in the case (see
+        :func:`num`); ``explicit_epoch`` passes the epoch number instead of letting the controller infer it."""
         e = self.ctl.get_last_epoch() + 1
         train_step(self.model, self.opt, e, train, val, self.salt)
-        return self.ctl.update_for_epoch(self.model, self.opt, train, val, **user)
+        if explicit_epoch:
+            return self.ctl.update_for_epoch(self.model, self.opt, num(train), num(val), e, **user)
+        return self.ctl.update_for_epoch(self.model, self.opt, num(train), num(val), **user)
 
     def csv_bytes(self):
         if self.csv is None or not os.path.exists(self.csv):
@@ -318,9 +404,64 @@ class Session:
         return sorted(out)
 
 
+def epoch_info(cfg, epoch) -> dict:
+    """The history entry the statement's rules give for ``epoch`` of the case's history (reference model)."""
+    r = RefController(cfg, lr0_of(cfg))
+    for v in cfg["val"][:epoch]:
+        r.update(num(v))
+    return dict(r.info(), train_met=num(cfg["train"][epoch - 1]), val_met=num(cfg["val"][epoch - 1]))
+
+
 def ckpt_names(cfg, epoch):
-    mf, of, _ = FMTS[cfg.get("fmt", "default")]
-    return [os.path.normpath(mf.format(epoch=epoch)), os.path.normpath(of.format(epoch=epoch))]
+    fmt = cfg.get("fmt", "default")
+    mf, of, _ = FMTS[fmt]
+    info = epoch_info(cfg, epoch) if fmt in INFO_FMTS else {"epoch": epoch}
+    return [os.path.normpath(mf.format(**info)), os.path.normpath(of.format(**info))]
+
+
+# ------------------------------------------------------------------ long histories from a few integers
+
+SIZES = (15, 16, 17, 31, 32, 33, 63, 64, 65, 127, 128, 129, 255, 256, 257, 1023, 1024, 1025, 2049)
+
+
+def expand_ticks(n, start, segs, hi):
+    """A metric history of ``n`` integer ticks in [0, hi], a pure function of its arguments.
+
+    ``segs`` is a list of [mode, length, amp] used cyclically: 0 = improve by ``amp`` ticks per epoch, 1 = plateau,
+    2 = worsen by ``amp`` per epoch, 3 = zig-zag (+amp, -amp, ...), 4 = one jump down by 8*amp then plateau,
+    5 = one jump up by 8*amp then plateau.
+    """
+    out, t, i = [], int(start), 0
+    while len(out) < n:
+        mode, length, amp = segs[i % len(segs)]
+        i += 1
+        for j in range(max(1, length)):
+            if len(out) >= n:
+                break
+            if mode == 0:
+                t -= amp
+            elif mode == 2:
+                t += amp
+            elif mode == 3:
+                t += amp if j % 2 == 0 else -amp
+            elif mode == 4 and j == 0:
+                t -= 8 * amp
+            elif mode == 5 and j == 0:
+                t += 8 * amp
+            t = min(hi, max(0, t))
+            out.append(t)
+    return out
+
+
+def expand_history(cfg):
+    """``val`` / ``train`` of a long-history case: cfg["n"] epochs from cfg["start"], cfg["segs"], cfg["q"] (tick size
+    1/4 with ticks <= 3999, or 1 with ticks <= 99999: every value has at most 5 significant digits)."""
+    q = cfg["q"]
+    hi = 3999 if q == 0.25 else 99999
+    ticks = expand_ticks(cfg["n"], cfg["start"], cfg["segs"], hi)
+    val = [t * q for t in ticks]
+    train = [((7 * i + cfg["start"]) % 33) / 4 for i in range(cfg["n"])]
+    return val, train
 
 
 @contextlib.contextmanager
